@@ -365,7 +365,67 @@ func runC16Extra(c *Ctx) {
 // cached snapshot pointer and skips the restore for a clean state); (2) the
 // copy-on-write clone of a validator list owns its slice; (3) no Reset of an
 // IISS cache writes pending entries through (Flush) instead of dropping them.
+// runC16Third: rules added for the remaining second-list mutants.
+func runC16Third(c *Ctx) {
+	// the concurrent executor's Reset restores the real world state exactly under the world write lock
+	if wl, ok := c.constVal("service/state", "AccountWriteLock"); ok {
+		if f := c.mustFn("service/state", "worldVirtualState", "Reset"); f != nil {
+			n := 0
+			for _, cs := range c.calls(f, byMethod("Reset")) {
+				r, _ := callArgs(cs.Common())
+				if r == nil || !strings.HasSuffix(render(r), ".real") {
+					continue
+				}
+				n++
+				c.requireAt("C16.reset-drops", "worldVirtualState.Reset restores the real world state", cs.Instr, wEQ("world write lock held", -wl, t(1, `^\$r\.worldLock$`)))
+				// and nothing else decides it: with the world write lock held, no path avoids it
+				_, skip := pathAvoidingEdges(f, f.Blocks[0].Instrs[0], isReturn, func(in ssa.Instruction) bool { return in == ssa.Instruction(cs.Instr) },
+					wNE("no world write lock", -wl, t(1, `^\$r\.worldLock$`)), wDiffer("foreign snapshot", `^\$r$`, `origin$`), wSame("already committed", `^\$r\.waiter$`, `^nil$`))
+				c.check(!skip, "C16.reset-drops", "worldVirtualState.Reset under the world write lock always restores the real world state", cs.Pos(), "no path round real.Reset", "a world-locked transaction can leave Reset without the real world state restored")
+			}
+			if n == 0 {
+				c.undecided("C16.reset-drops", "worldVirtualState.Reset", f.Pos(), "no real.Reset call")
+			}
+		}
+	} else {
+		c.undecided("C16.reset-drops", "AccountWriteLock", token.NoPos, "constant not found")
+	}
+	// icstate.AccountCache.Reset resets every cached account (to the empty one when the store has none)
+	if f := c.mustFn("icon/iiss/icstate", "AccountCache", "Reset"); f != nil {
+		var hdr *ssa.BasicBlock
+		for _, b := range f.Blocks {
+			for _, in := range b.Instrs {
+				if _, ok := in.(*ssa.Next); ok {
+					hdr = b
+				}
+			}
+		}
+		if hdr == nil {
+			c.undecided("C16.reset-drops", "AccountCache.Reset", f.Pos(), "no loop over the cached accounts")
+		} else {
+			body := loopBody(hdr)
+			isReset := func(in ssa.Instruction) bool {
+				cl, ok := in.(*ssa.Call)
+				return ok && methodName(cl.Common()) == "Reset"
+			}
+			var first ssa.Instruction
+			for _, s := range hdr.Succs {
+				if body[s] && s != hdr {
+					first = s.Instrs[0]
+				}
+			}
+			okAll := first != nil
+			if okAll {
+				_, skip := pathAvoiding(f, first, func(in ssa.Instruction) bool { return in.Block() == hdr }, func(in ssa.Instruction) bool { return isReset(in) })
+				okAll = !skip
+			}
+			c.check(okAll, "C16.reset-drops", "AccountCache.Reset resets every cached account", f.Pos(), "every iteration reaches account.Reset(…)", "an iteration can finish without resetting the cached account (for instance one the restored store does not hold): the failed transaction's stake/delegation stays in the cache and is flushed with the next commit")
+		}
+	}
+}
+
 func runC16Second(c *Ctx) {
+	runC16Third(c)
 	nM := 0
 	for _, f := range c.pkgFuncs("service/state") {
 		if f.Signature.Recv() == nil || namedOf(f.Signature.Recv().Type()) != "BTPStateImpl" || f.Parent() != nil {
